@@ -271,11 +271,23 @@ def rule_range_step(rep, fb, floor=4, name="OVERFLOW.range-step"):
                 if find_all((c[1],), lambda k: k == step) and find_all((c[1],), lambda k: k[0] == "bin" and k[1] == "-"):
                     for b in find_all((c[2], c[3]), lambda k: k[0] == "bin" and k[1] == "+" and step in (strip(k[2]), strip(k[3]))):
                         guarded.add(id(b))
+            # the other overflow-safe idiom: `if (bound - j <= step) break;` (or return) ahead of a plain `j += step` in the same block
+            def break_guarded(stmts):
+                out = set()
+                for i, st in enumerate(stmts):
+                    if st[0] == "if" and find_all((st[1],), lambda q: q == step) and find_all((st[1],), lambda q: q[0] == "bin" and q[1] == "-") and find_all(st[2], lambda q: q[0] in ("break", "return")):
+                        for later in stmts[i + 1:]:
+                            for q in find_all((later,), lambda q: q[0] == "aug" and q[1] in ("+", "-") and strip(q[3]) == step):
+                                out.add(id(q))
+                    for b in cs.sub_blocks(st):
+                        out |= break_guarded(b)
+                return out
+            bguard = break_guarded(f["body"])
             for k in find_all(f["body"], lambda k: (k[0] == "aug" and k[1] in ("+", "-") and strip(k[3]) == step) or (k[0] == "bin" and k[1] == "+" and step in (strip(k[2]), strip(k[3])))):
                 n += 1
                 key = "%s#%d" % (f["qual"], n)
                 where = "%s:%d" % (f["file"], k[-1] if isinstance(k[-1], int) else f["line"])
-                r.check(k[0] == "bin" and id(k) in guarded, key, where, "%s advances a counter by the slice step without the saturating guard (overflow for |step| near 2^63)" % f["qual"], detail="saturating step")
+                r.check((k[0] == "bin" and id(k) in guarded) or id(k) in bguard, key, where, "%s advances a counter by the slice step without the saturating guard (overflow for |step| near 2^63)" % f["qual"], detail="saturating step")
     return r.done()
 
 
